@@ -113,7 +113,10 @@ func cmdCheck(args []string) int {
 	}
 	tagSets := []string{""}
 	if *tier == "thorough" {
-		tagSets = []string{"", "debug"}
+		tierThorough = true
+		// the default build, the debug build, the build without the amd64 assembly
+		// (generic Keccak paths), and the other supported OS family
+		tagSets = []string{"", "debug", "GOARCH=arm64", "GOOS=darwin,GOARCH=arm64,CGO_ENABLED=0"}
 	}
 	worst := 0
 	progs := map[string]*Program{}
@@ -133,7 +136,11 @@ func cmdCheck(args []string) int {
 			worst = max(worst, 2)
 			continue
 		}
-		code := runOne(id, *tier, vd, tagSets, progs, f)
+		var sv map[string]interface{}
+		if *tier == "thorough" {
+			sv = selfValidate(id, *repo, vd, overlay != nil)
+		}
+		code := runOne(id, *tier, vd, tagSets, progs, f, sv)
 		worst = maxCode(worst, code)
 	}
 	return worst
@@ -150,7 +157,7 @@ func maxCode(a, b int) int {
 	return 0
 }
 
-func runOne(id, tier, vd string, tagSets []string, progs map[string]*Program, f func(c *Ctx)) (code int) {
+func runOne(id, tier, vd string, tagSets []string, progs map[string]*Program, f func(c *Ctx), sv map[string]interface{}) (code int) {
 	// The default tag set is evaluated last so that its evidence is the one kept;
 	// obligations of the other tag sets are merged in with a prefix.
 	var merged *Ctx
@@ -183,6 +190,13 @@ func runOne(id, tier, vd string, tagSets []string, progs map[string]*Program, f 
 			}
 			merged.extra["other_tag_sets"] = map[string]interface{}{"tags": tagSets[1:], "obligations": len(prev.Obs)}
 		}
+	}
+	if sv != nil {
+		merged.extra["self_validation"] = sv
+	}
+	if tier == "thorough" {
+		merged.extra["configurations"] = tagSets
+		merged.extra["path_bounds"] = "every path enumeration unrolls loops once more than the quick tier and may visit 20x as many paths"
 	}
 	return merged.Finish()
 }
